@@ -3,3 +3,5 @@ Require Import ExtrOcamlBasic.
 From NB Require Import Extract.Api.
 Extraction Language OCaml.
 Separate Extraction Api.
+From NB Require Import Extract.ApiMerge.
+Separate Extraction Api ApiMerge.
